@@ -50,6 +50,14 @@ def _psum(a, k):
     return sum(a[:int(k)])
 
 
+def _ksum(keys, vals, K, lo, hi):
+    return float(sum(float(vals[p]) for p in range(int(lo), int(hi)) if keys[p] == K))
+
+
+def _is_int(x):
+    return float(x) == int(x)
+
+
 class _Rewrite(ast.NodeTransformer):
     """implies/ite become lazy python; old(e)/unchanged(e) evaluate e in the entry snapshot."""
 
@@ -106,6 +114,7 @@ class Contract:
     def __init__(self, c, macros):
         self.c, self.macros = c, macros
         self._code = {}
+        self.extra = {}   # run-time values of ghost parameters and symbolic module constants
 
     def compile(self, src):
         if src not in self._code:
@@ -116,7 +125,8 @@ class Contract:
 
     def env(self, args, old_args=None, result=None, has_result=False):
         e = dict(forall=_forall, forall2=_forall2, exists=_exists, strictly_increasing=_strictly_increasing, nondecreasing=_nondecreasing,
-                 member=_member, psum=_psum, np=np, len=len, abs=abs, min=min, max=max)
+                 member=_member, psum=_psum, ksum=_ksum, is_int=_is_int, np=np, len=len, abs=abs, min=min, max=max)
+        e.update(self.extra)
         e.update(args)
         if has_result:
             e["result"] = result
@@ -138,7 +148,7 @@ class Contract:
 
     def check_requires(self, args):
         env = self.env(args)
-        for r in self.c.get("requires", []):
+        for r in list(self.c.get("requires", [])) + list(self.c.get("assumed_requires", [])):
             try:
                 if not self.holds(r, env):
                     return False
